@@ -394,6 +394,49 @@ func c08(c *Ctx) {
 				}
 			}
 			r.Check(okR, "C08.R3", shortName(fn)+" reaches capture", p.Pos(fn.Pos()), "routes through the capturing function", "Set/Apply never reaches the function that remembers the pre-mock value")
+			// a mocker that knows its variable only by address (a field of type unsafe.Pointer) builds the handle it writes
+			// through from that address — reflect.NewAt(type, address) stored into the handle field — before it captures
+			if rt, ok := fn.Signature.Recv().Type().(*types.Pointer); ok {
+				if st, ok := rt.Elem().Underlying().(*types.Struct); ok {
+					var addrFld *types.Var
+					for k := 0; k < st.NumFields(); k++ {
+						if st.Field(k).Type().String() == "unsafe.Pointer" {
+							addrFld = st.Field(k)
+						}
+					}
+					if addrFld != nil {
+						isHandle := func(j ssa.Instruction) bool {
+							s2, ok := j.(*ssa.Store)
+							if !ok || !strings.HasSuffix(s2.Val.Type().String(), "reflect.Value") {
+								return false
+							}
+							if _, isF := s2.Addr.(*ssa.FieldAddr); !isF {
+								return false
+							}
+							for _, a := range origins(s2.Val) {
+								if c2, ok := a.V.(*ssa.Call); ok && calleeName(c2.Common()) == "reflect.NewAt" {
+									if _, fv, ok := fieldRef(resolveLocal(c2.Call.Args[1])); ok && fv == addrFld {
+										return true
+									}
+								}
+							}
+							return false
+						}
+						okH := true
+						eachInstr(fn, func(j ssa.Instruction) {
+							if ci, ok := j.(ssa.CallInstruction); ok {
+								if cal := staticCallee(ci.Common()); cal != nil && (capFns[cal] || p.staticReach(cal)[firstKey(capFns)]) && cal != fn {
+									if !passedBefore(fn, j, isHandle, nil) {
+										okH = false
+									}
+								}
+							}
+						})
+						r.Check(okH, "C08.R3", shortName(fn)+" builds the handle from the variable's address", p.Pos(fn.Pos()), "handle = reflect.NewAt(type, address) before the capture",
+							"the by-name variable mocker captures and writes through a handle that was never built from the looked-up address: Set panics (zero Value) or writes elsewhere")
+					}
+				}
+			}
 		}
 	}
 }
@@ -436,4 +479,14 @@ func sameAccessPath(k *Keyer, a, b ssa.Value, depth int) bool {
 	}
 	ka, kb := k.Key(a), k.Key(b)
 	return ka == kb && !strings.HasPrefix(ka, "#") && !strings.HasPrefix(ka, "$")
+}
+
+func firstKey(m map[*ssa.Function]bool) *ssa.Function {
+	var best *ssa.Function
+	for f := range m {
+		if best == nil || f.String() < best.String() {
+			best = f
+		}
+	}
+	return best
 }
